@@ -5,6 +5,7 @@ text second), plus a differential between loading paths; (c) for one-fault mutat
 """
 from __future__ import annotations
 
+import json
 import logging
 import os
 import shutil
@@ -38,6 +39,7 @@ def tasks(tier, seed):
     t = [{"sub": "bundled", "nit": nit} for nit in ("float", "Fraction", "Decimal")]
     t += [{"sub": "generated", "shard": i} for i in range(6)]
     t += [{"sub": "faults", "shard": i} for i in range(2)]
+    t += [{"sub": "xcache", "shard": 0}]
     return t
 
 
@@ -479,9 +481,77 @@ def run_faults(task, tier, seed, col):
     hyp_search(col, strat, lambda c: case_fault(c, col), max_examples=150 if tier == "quick" else 2500, seed=seed * 173 + task["shard"])
 
 
+# ------------------------------------------------------------------------------------- on-disk cache shared by interpreter runs
+
+_XCACHE_CODE = r"""
+import json, sys, logging
+logging.disable(logging.CRITICAL)
+import pint
+folder, defs = sys.argv[1], sys.argv[2]
+kw = {} if folder == "-" else {"cache_folder": folder}
+reg = pint.UnitRegistry(**kw) if defs == "-" else pint.UnitRegistry(defs, **kw)
+units = json.load(sys.stdin)
+out = {}
+for u in units:
+    try:
+        out[u] = {"compat": sorted(next(iter(x._units)) for x in reg.get_compatible_units(u)), "root": repr(reg.get_root_units(u)), "dim": repr(dict(reg.get_dimensionality(u))),
+                  "parse": repr(dict(reg.parse_units("kilo" + u + "/second")._units)), "conv": repr(reg.Quantity(3, u).to_root_units())}
+    except Exception as e:
+        out[u] = "!" + type(e).__name__
+print(json.dumps(out))
+"""
+
+
+def case_xcache(case, col=None):
+    """A cache folder filled by one interpreter run is read by the next one (other hash seed): every answer must stay the same and the
+    compatible-unit listings must be those of the definitions."""
+    import subprocess
+    import sys
+
+    R = env.R()
+    work = tempfile.mkdtemp(prefix="vf_c10x_")
+    try:
+        defs = "-"
+        units = case["units"]
+        if case["source"] == "generated":
+            lines = ["xm = [xlen]", "xs = [xtime]", "kilo- = 1000", "foo = 3 * xm = fo", "bar = 5 * foo", "baz = 2 * xs", "spd = 9 * xm / xs", "@group ga", "    gfoo = 11 * xm", "@end"]
+            defs = os.path.join(work, "defs.txt")
+            with open(defs, "w") as fh:
+                fh.write("\n".join(lines) + "\n")
+            units = ["xm", "foo", "bar", "baz", "spd", "gfoo"]
+        answers = []
+        for i, hs in enumerate(case["hashseeds"]):
+            envv = dict(os.environ, PYTHONHASHSEED=str(hs))
+            # run 0: no cache folder (the reference); run 1 fills the folder; the later runs read it under other hash seeds
+            p = subprocess.run([sys.executable, "-c", _XCACHE_CODE, os.path.join(work, "cache") if i else "-", defs], input=json.dumps(units), capture_output=True, text=True, env=envv, timeout=600)
+            if p.returncode != 0:
+                raise RuntimeError(p.stderr[-500:])
+            answers.append(json.loads(p.stdout))
+        if col is not None:
+            col.case(("xc", case["source"], tuple(case["hashseeds"])), True, sample=case, cls=case["source"])
+        for u in units:
+            for i, a in enumerate(answers[1:], 1):
+                if a[u] != answers[0][u]:
+                    what = [k for k in answers[0][u] if not isinstance(a[u], dict) or a[u].get(k) != answers[0][u][k]] if isinstance(answers[0][u], dict) else ["outcome"]
+                    raise Violation(f"warm_cache_of_another_run_changes_answers:{what[0]}",
+                                    f"{u} ({case['source']} definitions): run {i} (PYTHONHASHSEED={case['hashseeds'][i]}, warm cache) differs from the run without a cache folder in {what}: "
+                                    f"{str(a[u])[:160]} vs {str(answers[0][u])[:160]}")
+    finally:
+        shutil.rmtree(work, ignore_errors=True)
+
+
+def run_xcache(task, tier, seed, col):
+    for src in ("bundled", "generated"):
+        col.run_case(lambda c: case_xcache(c, col), {"source": src, "units": ["meter", "second", "newton", "inch", "radian", "byte"], "hashseeds": [3, 1 + seed % 5, 7, 11]})
+
+
 def run_task(task, tier, seed, col):
+    if task["sub"] == "xcache":
+        return run_xcache(task, tier, seed, col)
     {"bundled": run_bundled, "generated": run_generated, "faults": run_faults}[task["sub"]](task, tier, seed, col)
 
 
 def replay(sub, case):
+    if sub == "xcache":
+        return case_xcache(case)
     return {"bundled": case_bundled, "generated": case_generated, "faults": case_fault}[sub](case)
